@@ -77,119 +77,229 @@ def fn_body(src, header_re):
     return None
 
 
-def tables():
-    """the data-like parts of the sources: precedence table, binary-operator token set, token -> operator
-    maps, FUNC_TABLE, keyword tokens.  Returns Coq text or raises ValueError (= translation failure)."""
-    def rd(rel):
-        return re.sub(r"//[^\n]*", "", open(os.path.join(REPO, rel), encoding="utf-8").read())
-    out = []
-    # BinOp::precedence
+def rd(rel):
+    return re.sub(r"//[^\n]*", "", open(os.path.join(REPO, rel), encoding="utf-8").read())
+
+
+def match_arms(body, prefix):
+    """arms `P1 | P2 ... [if guard] => rhs,` of a match body; yields (list of constructor names, guard or None, rhs).
+    Handles or-patterns and block right-hand sides; raises ValueError on anything else."""
+    arms = []
+    i, n = 0, len(body)
+    while i < n:
+        m = re.compile(r"\s*((?:%s(\w+)\s*\|?\s*)+)(?:if\s+(.+?)\s*)?=>\s*" % re.escape(prefix)).match(body, i)
+        if not m:
+            if body[i:].strip() in ("", ","):
+                break
+            raise ValueError("match arm not recognised near: %s" % " ".join(body[i:i + 60].split()))
+        names = re.findall(re.escape(prefix) + r"(\w+)", m.group(1))
+        j = m.end()
+        if body[j] == "{":
+            depth, k = 0, j
+            while k < n:
+                if body[k] == "{":
+                    depth += 1
+                elif body[k] == "}":
+                    depth -= 1
+                    if depth == 0:
+                        break
+                k += 1
+            rhs = body[j:k + 1]
+            i = k + 1
+            while i < n and body[i] in " \t\n,":
+                i += 1
+        else:
+            depth, k = 0, j
+            while k < n and not (body[k] == "," and depth == 0):
+                if body[k] in "([{":
+                    depth += 1
+                elif body[k] in ")]}":
+                    depth -= 1
+                k += 1
+            rhs = body[j:k]
+            i = k + 1
+        arms.append((names, (m.group(3) or None), " ".join(rhs.split())))
+    return arms
+
+
+def sec_precedence():
     body = fn_body(rd("src/parser/binoptree.rs"), r"fn\s+precedence\s*\(\s*&self\s*\)\s*->\s*u8\s*\{")
     if body is None:
         raise ValueError("BinOp::precedence not found")
-    prec = dict((k, int(v)) for k, v in re.findall(r"Self::(\w+)\s*=>\s*(\d+)", body))
+    m = re.search(r"match\s+self\s*\{(.*)\}", body, re.S)
+    if not m:
+        raise ValueError("BinOp::precedence: match not recognised")
+    prec = {}
+    for names, guard, rhs in match_arms(m.group(1), "Self::"):
+        if guard or not re.fullmatch(r"\d+", rhs):
+            raise ValueError("BinOp::precedence: arm %s => %s not recognised" % (names, rhs))
+        for k in names:
+            prec[k] = int(rhs)
     if set(prec) != set(BINOPS):
         raise ValueError("BinOp::precedence: arms %s" % sorted(prec))
-    out.append("Definition gen_precedence (op : binop) : N :=\n  match op with\n" +
-               "".join("  | %s => %d\n" % (k, prec[k]) for k in BINOPS) + "  end.\n")
-    exprrs = rd("src/parser/expr.rs")
-    # TokenKind::is_binary_op
-    body = fn_body(exprrs, r"fn\s+is_binary_op\s*\(\s*&self\s*\)\s*->\s*bool\s*\{")
+    return ("Definition gen_precedence (op : binop) : N :=\n  match op with\n" +
+            "".join("  | %s => %d\n" % (k, prec[k]) for k in BINOPS) + "  end.\n")
+
+
+def sec_is_binary_op():
+    body = fn_body(rd("src/parser/expr.rs"), r"fn\s+is_binary_op\s*\(\s*&self\s*\)\s*->\s*bool\s*\{")
     if body is None:
         raise ValueError("is_binary_op not found")
+    norm = " ".join(body.split())
+    if not re.fullmatch(r"matches!\( self, (?:\|\s*)?(?:TokenKind::\w+\s*\|?\s*)+\)", norm):
+        raise ValueError("is_binary_op: body not recognised: %s" % norm[:120])
     toks = re.findall(r"TokenKind::(\w+)", body)
-    out.append("Definition gen_is_binary_op (k : tk) : bool :=\n  match k with\n  | " + " | ".join("T" + t for t in toks) +
-               " => true\n  | _ => false\n  end.\n")
-    # From<TokenKind> for BinOp / UnaryOp
-    body = fn_body(exprrs, r"impl\s+From<TokenKind>\s+for\s+BinOp\s*\{")
-    pairs = re.findall(r"TokenKind::(\w+)\s*=>\s*BinOp::(\w+)", body or "")
+    return ("Definition gen_is_binary_op (k : tk) : bool :=\n  match k with\n  | " + " | ".join("T" + t for t in toks) +
+            " => true\n  | _ => false\n  end.\n")
+
+
+def sec_binop_of_token():
+    body = fn_body(rd("src/parser/expr.rs"), r"impl\s+From<TokenKind>\s+for\s+BinOp\s*\{")
+    pairs = re.findall(r"TokenKind::(\w+)\s*=>\s*(?:BinOp|Self)::(\w+)", body or "")
     if not pairs:
         raise ValueError("From<TokenKind> for BinOp not found")
-    out.append("Definition gen_binop_of_token (k : tk) : option binop :=\n  match k with\n" +
-               "".join("  | T%s => Some %s\n" % p for p in pairs) + "  | _ => None\n  end.\n")
-    body = fn_body(exprrs, r"impl\s+From<TokenKind>\s+for\s+UnaryOp\s*\{")
-    pairs = re.findall(r"TokenKind::(\w+)\s*=>\s*UnaryOp::(\w+)", body or "")
+    return ("Definition gen_binop_of_token (k : tk) : option binop :=\n  match k with\n" +
+            "".join("  | T%s => Some %s\n" % p for p in pairs) + "  | _ => None\n  end.\n")
+
+
+def sec_unop_of_token():
+    body = fn_body(rd("src/parser/expr.rs"), r"impl\s+From<TokenKind>\s+for\s+UnaryOp\s*\{")
+    pairs = re.findall(r"TokenKind::(\w+)\s*=>\s*(?:UnaryOp|Self)::(\w+)", body or "")
     if not pairs:
         raise ValueError("From<TokenKind> for UnaryOp not found")
-    out.append("Definition gen_unop_of_token (k : tk) : option unop :=\n  match k with\n" +
-               "".join("  | T%s => Some %s\n" % (a, UNOPS[b]) for a, b in pairs) + "  | _ => None\n  end.\n")
-    # FUNC_TABLE
+    return ("Definition gen_unop_of_token (k : tk) : option unop :=\n  match k with\n" +
+            "".join("  | T%s => Some %s\n" % (a, UNOPS[b]) for a, b in pairs) + "  | _ => None\n  end.\n")
+
+
+def sec_func_table():
     ents = re.findall(r'FuncTableEntry\s*\{\s*name:\s*"(\w+)",\s*number_of_args:\s*(\d+)', rd("src/expr.rs"))
     if not ents:
         raise ValueError("FUNC_TABLE not found")
-    out.append("Definition gen_func_table : list (name * N) :=\n  [ " +
-               "; ".join('(s2n "%s", %s)' % e for e in ents) + " ]%string.\n")
-    # keyword tokens of TokenKind (alphabetic #[token("...")])
+    return ("Definition gen_func_table : list (name * N) :=\n  [ " +
+            "; ".join('(s2n "%s", %s)' % e for e in ents) + " ]%string.\n")
+
+
+def sec_keywords():
     toks, regs = token_table()
     kws = [(t, k) for t, k in toks if re.fullmatch(r"[A-Za-z]+", t)]
-    out.append("Definition gen_keywords : list (name * tk) :=\n  [ " +
-               "; ".join('(s2n "%s", T%s)' % kw for kw in kws) + " ]%string.\n")
-    out.append("(* the regular expressions of the statement lexer, as written in src/lexer/token.rs *)\nDefinition gen_regexes : list (string * string) :=\n  [ " +
-               "; ".join("(%s, %s)" % (coq_string(k), coq_string(r)) for r, k in regs) + " ]%string.\n")
+    if not kws:
+        raise ValueError("no keyword tokens found in TokenKind")
+    return ("Definition gen_keywords : list (name * tk) :=\n  [ " +
+            "; ".join('(s2n "%s", T%s)' % kw for kw in kws) + " ]%string.\n")
+
+
+def sec_regexes():
+    toks, regs = token_table()
+    if not regs:
+        raise ValueError("no #[regex] tokens found in TokenKind")
+    return ("(* the regular expressions of the statement lexer, as written in src/lexer/token.rs *)\nDefinition gen_regexes : list (string * string) :=\n  [ " +
+            "; ".join("(%s, %s)" % (coq_string(k), coq_string(r)) for r, k in regs) + " ]%string.\n")
+
+
+def sec_header_regexes():
+    src = open(os.path.join(REPO, "src/lexer/token.rs"), encoding="utf-8").read()
+    m = re.search(r"pub\(crate\) enum HeaderTokenKind \{(.*?)\n\}", src, re.S)
+    if not m:
+        raise ValueError("enum HeaderTokenKind not found")
+    body = m.group(1)
+    regs = re.findall(r'#\[regex\(r?"((?:[^"\\]|\\.)*)"(?:,\s*[\w:]+)?\)\]\s*(\w+)', body)
+    toks = re.findall(r'#\[token\("((?:[^"\\]|\\.)*)"\)\]\s*(\w+)', body)
+    if not regs or not toks:
+        raise ValueError("HeaderTokenKind: no #[regex] / #[token] attributes found")
+    return ("(* the header lexer (HeaderTokenKind), as written in src/lexer/token.rs *)\nDefinition gen_header_regexes : list (string * string) :=\n  [ " +
+            "; ".join("(%s, %s)" % (coq_string(k), coq_string(r)) for r, k in regs) + " ]%string.\n\n" +
+            "Definition gen_header_tokens : list (string * string) :=\n  [ " +
+            "; ".join("(%s, %s)" % (coq_string(k), coq_string(t)) for t, k in toks) + " ]%string.\n")
+
+
+def sec_punct():
+    toks, regs = token_table()
     punct = [(t, k) for t, k in toks if not re.fullmatch(r"[A-Za-z]+", t)]
-    out.append("(* the punctuation tokens *)\nDefinition gen_punct : list (string * tk) :=\n  [ " +
-               "; ".join("(%s, T%s)" % (coq_string(t.replace("\\n", "\n")) if t != "\\n" else 'String (Ascii.ascii_of_nat 10) EmptyString', k) for t, k in punct) + " ]%string.\n")
-    # BinOp::eval / UnaryOp::eval arms (src/expr.rs): a tiny expression translator; anything it does not
-    # recognise is a translation failure
-    exprsrc = rd("src/expr.rs")
-    body = fn_body(exprsrc, r"fn\s+eval\s*\(\s*&self\s*,\s*left:\s*i64\s*,\s*right:\s*i64\s*\)")
+    if not punct:
+        raise ValueError("no punctuation tokens found in TokenKind")
+    return ("(* the punctuation tokens *)\nDefinition gen_punct : list (string * tk) :=\n  [ " +
+            "; ".join("(%s, T%s)" % (coq_string(t.replace("\\n", "\n")) if t != "\\n" else 'String (Ascii.ascii_of_nat 10) EmptyString', k) for t, k in punct) + " ]%string.\n")
+
+
+CMPOPS = {"==": "(l =? r)", "!=": "(negb (l =? r))", ">": "(l >? r)", "<": "(l <? r)", ">=": "(l >=? r)", "<=": "(l <=? r)"}
+BITOPS = {"|": "Z.lor", "^": "Z.lxor", "&": "Z.land"}
+WRAPS = {"wrapping_add": "wadd", "wrapping_sub": "wsub", "wrapping_mul": "wmul", "wrapping_div": "wdiv", "wrapping_rem": "wrem"}
+DIVZ = r"(?:return\s+)?Err\(ExprErrorKind::DivisionByZero(?:\.into\(\))?\)(?:\.into\(\))?;?"
+
+
+def sec_binop_eval():
+    body = fn_body(rd("src/expr.rs"), r"fn\s+eval\s*\(\s*&self\s*,\s*left:\s*i64\s*,\s*right:\s*i64\s*\)")
     if body is None:
         raise ValueError("BinOp::eval not found")
-    g = re.search(r"if\s+right\s*==\s*0\s*&&\s*matches!\(\s*self\s*,([^)]*)\)\s*\{\s*return\s+Err\(ExprErrorKind::DivisionByZero", body)
-    if not g:
-        raise ValueError("BinOp::eval: division-by-zero guard not recognised")
-    guard = re.findall(r"Self::(\w+)", g.group(1))
-    m = re.search(r"Ok\(\s*match\s+self\s*\{(.*?)\}\s*\)", body, re.S)
+    guard = None
+    g = re.search(r"if\s+right\s*==\s*0\s*&&\s*matches!\(\s*self\s*,([^)]*)\)\s*\{\s*" + DIVZ + r"\s*\}", body)
+    if g:
+        guard = re.findall(r"Self::(\w+)", g.group(1))
+    m = re.search(r"Ok\(\s*match\s+self\s*\{(.*)\}\s*\)", body, re.S)
     if not m:
         raise ValueError("BinOp::eval: match not recognised")
-    cmpops = {"==": "(l =? r)", "!=": "(negb (l =? r))", ">": "(l >? r)", "<": "(l <? r)", ">=": "(l >=? r)", "<=": "(l <=? r)"}
-    bitops = {"|": "Z.lor", "^": "Z.lxor", "&": "Z.land"}
-    wraps = {"wrapping_add": "wadd", "wrapping_sub": "wsub", "wrapping_mul": "wmul", "wrapping_div": "wdiv", "wrapping_rem": "wrem"}
     arms = {}
-    for name, rhs in re.findall(r"Self::(\w+)\s*=>\s*([^,]+(?:\([^)]*\))?[^,]*),", m.group(1) + ","):
-        rhs = " ".join(rhs.split())
-        mm = re.fullmatch(r"\(left (==|!=|>=|<=|>|<) right\) as i64", rhs)
-        if mm:
-            arms[name] = "b2z %s" % cmpops[mm.group(1)]
-            continue
-        mm = re.fullmatch(r"left (\||\^|&) right", rhs)
-        if mm:
-            arms[name] = "%s l r" % bitops[mm.group(1)]
-            continue
-        mm = re.fullmatch(r"left\.(wrapping_\w+)\(right\)", rhs)
-        if mm and mm.group(1) in wraps:
-            arms[name] = "%s l r" % wraps[mm.group(1)]
-            continue
-        mm = re.fullmatch(r"left\.wrapping_(shl|shr)\(right as u32\)", rhs)
-        if mm:
-            arms[name] = "%s l r" % ("wshl" if mm.group(1) == "shl" else "wshr")
-            continue
-        raise ValueError("BinOp::eval: arm %s => %s not recognised" % (name, rhs))
+    for names, cond, rhs in match_arms(m.group(1), "Self::"):
+        if cond is not None:
+            # the zero guard written as a guarded first arm:  Self::Divide | Self::Reminder if right == 0 => return Err(DivisionByZero)
+            if " ".join(cond.split()) == "right == 0" and re.fullmatch(r"\{?\s*" + DIVZ + r"\s*\}?", rhs) and guard is None and not arms:
+                guard = names
+                continue
+            raise ValueError("BinOp::eval: guarded arm %s if %s not recognised" % (names, cond))
+        for name in names:
+            mm = re.fullmatch(r"\(left (==|!=|>=|<=|>|<) right\) as i64", rhs)
+            if mm:
+                arms[name] = "b2z %s" % CMPOPS[mm.group(1)]
+                continue
+            mm = re.fullmatch(r"left (\||\^|&) right", rhs)
+            if mm:
+                arms[name] = "%s l r" % BITOPS[mm.group(1)]
+                continue
+            mm = re.fullmatch(r"left\.(wrapping_\w+)\(right\)", rhs)
+            if mm and mm.group(1) in WRAPS:
+                arms[name] = "%s l r" % WRAPS[mm.group(1)]
+                continue
+            mm = re.fullmatch(r"left\.wrapping_(shl|shr)\(right as u32\)", rhs)
+            if mm:
+                arms[name] = "%s l r" % ("wshl" if mm.group(1) == "shl" else "wshr")
+                continue
+            raise ValueError("BinOp::eval: arm %s => %s not recognised" % (name, rhs))
+    if guard is None:
+        raise ValueError("BinOp::eval: division-by-zero guard not recognised")
     if set(arms) != set(BINOPS):
         raise ValueError("BinOp::eval: arms %s" % sorted(arms))
-    out.append("Local Open Scope Z_scope.\n")
-    out.append("Definition gen_div_guard : list binop := [ " + "; ".join(guard) + " ].\n")
-    out.append("Definition gen_binop_value (op : binop) (l r : Z) : Z :=\n  match op with\n" +
-               "".join("  | %s => %s\n" % (k, arms[k]) for k in BINOPS) + "  end.\n")
-    body = fn_body(exprsrc, r"fn\s+eval\s*\(\s*&self\s*,\s*val:\s*i64\s*\)")
+    return ("Definition gen_div_guard : list binop := [ " + "; ".join(guard) + " ].\n\n" +
+            "Definition gen_binop_value (op : binop) (l r : Z) : Z :=\n  match op with\n" +
+            "".join("  | %s => %s\n" % (k, arms[k]) for k in BINOPS) + "  end.\n")
+
+
+def sec_unop_eval():
+    body = fn_body(rd("src/expr.rs"), r"fn\s+eval\s*\(\s*&self\s*,\s*val:\s*i64\s*\)")
     if body is None:
         raise ValueError("UnaryOp::eval not found")
+    m = re.search(r"match\s+self\s*\{(.*)\}", body, re.S)
+    if not m:
+        raise ValueError("UnaryOp::eval: match not recognised")
     uarms = {}
-    for name, rhs in re.findall(r"Self::(\w+)\s*=>\s*([^,]+),", body):
-        rhs = " ".join(rhs.split())
-        if rhs == "val.wrapping_neg()":
-            uarms[name] = "wneg v"
-        elif rhs == "(val == 0) as i64":
-            uarms[name] = "b2z (v =? 0)"
-        elif rhs == "!val":
-            uarms[name] = "Z.lnot v"
-        else:
-            raise ValueError("UnaryOp::eval: arm %s => %s not recognised" % (name, rhs))
+    for names, cond, rhs in match_arms(m.group(1), "Self::"):
+        if cond:
+            raise ValueError("UnaryOp::eval: guarded arm")
+        for name in names:
+            if rhs in ("val.wrapping_neg()", "0i64.wrapping_sub(val)", "0_i64.wrapping_sub(val)"):
+                uarms[name] = "wneg v"
+            elif rhs in ("(val == 0) as i64", "i64::from(val == 0)"):
+                uarms[name] = "b2z (v =? 0)"
+            elif rhs == "!val":
+                uarms[name] = "Z.lnot v"
+            else:
+                raise ValueError("UnaryOp::eval: arm %s => %s not recognised" % (name, rhs))
     if set(uarms) != set(UNOPS):
         raise ValueError("UnaryOp::eval: arms %s" % sorted(uarms))
-    out.append("Definition gen_unop_value (op : unop) (v : Z) : Z :=\n  match op with\n" +
-               "".join("  | %s => %s\n" % (UNOPS[k], uarms[k]) for k in UNOPS) + "  end.\n")
-    # fn bit_mask (src/data_row_iterator.rs) and its two call sites
+    return ("Definition gen_unop_value (op : unop) (v : Z) : Z :=\n  match op with\n" +
+            "".join("  | %s => %s\n" % (UNOPS[k], uarms[k]) for k in UNOPS) + "  end.\n")
+
+
+def sec_bit_mask():
     dri = rd("src/data_row_iterator.rs")
     body = fn_body(dri, r"fn\s+bit_mask\s*\(\s*bits:\s*usize\s*\)\s*->\s*i64")
     norm = " ".join((body or "").split())
@@ -199,18 +309,54 @@ def tables():
     sites = re.findall(r"(\w+)::Value\(n & bit_mask\(signal\.bits\)\)", dri)
     if sorted(sites) != ["ExpectedValue", "InputValue"]:
         raise ValueError("bit_mask call sites: %s" % sites)
-    out.append("Definition gen_bit_mask (bits : N) : Z := if (bits <? %s)%%N then 2 ^ Z.of_N bits - 1 else -1.\n" % mm.group(1))
-    # ExpectedValue::check (src/value.rs)
+    return "Definition gen_bit_mask (bits : N) : Z := if (bits <? %s)%%N then 2 ^ Z.of_N bits - 1 else -1.\n" % mm.group(1)
+
+
+def sec_expected_check():
     body = fn_body(rd("src/value.rs"), r"pub\s+fn\s+check\s*\(\s*&self\s*,\s*other:\s*impl\s+Into<OutputValue>\s*\)")
     norm = " ".join((body or "").split())
     want = ("let other = other.into(); match self { ExpectedValue::Value(n) => matches!(other, OutputValue::Value(m) if *n == m), "
             "ExpectedValue::Z => matches!(other, OutputValue::Z), ExpectedValue::X => true, }")
     if norm != want:
         raise ValueError("ExpectedValue::check: body not recognised: %s" % norm)
-    out.append("Definition gen_expected_check (e : expval) (o : outval) : bool :=\n  match e with\n"
-               "  | XVal n => match o with OVal m => Z.eqb n m | _ => false end\n"
-               "  | XZ => match o with OZ => true | _ => false end\n  | XX => true\n  end.\n")
-    return "\n".join(out)
+    return ("Definition gen_expected_check (e : expval) (o : outval) : bool :=\n  match e with\n"
+            "  | XVal n => match o with OVal m => Z.eqb n m | _ => false end\n"
+            "  | XZ => match o with OZ => true | _ => false end\n  | XX => true\n  end.\n")
+
+
+# order = order in GeneratedTables.v.  "Z" marks the point where Z_scope is opened.
+SECTIONS = [("precedence", sec_precedence), ("is_binary_op", sec_is_binary_op), ("binop_of_token", sec_binop_of_token),
+            ("unop_of_token", sec_unop_of_token), ("func_table", sec_func_table), ("keywords", sec_keywords),
+            ("regexes", sec_regexes), ("header_regexes", sec_header_regexes), ("punct", sec_punct), ("Z", None), ("binop_eval", sec_binop_eval),
+            ("unop_eval", sec_unop_eval), ("bit_mask", sec_bit_mask), ("expected_check", sec_expected_check)]
+REFERENCE = os.path.join(os.path.dirname(os.path.abspath(__file__)), "t1_reference.json")
+STATUS = os.path.join(os.path.dirname(os.path.abspath(__file__)), "..", ".work", "t1_status.json")
+
+
+def tables():
+    """the data-like parts of the sources.  Every section is translated on its own.  A section the translator
+    cannot read (a *translation failure*, e.g. after a rewrite into a form it does not know) falls back to the
+    reference text (what the translator produced for the pinned tree, tools/t1_reference.json): the pin lemma of
+    that section then says nothing about the current source, which is recorded in .work/t1_status.json; check.py
+    reports it and lets the behavioural correspondence (escalated to the thorough case counts) carry the tie of the
+    properties that use the section."""
+    import json
+    ref = json.load(open(REFERENCE)) if os.path.exists(REFERENCE) else {}
+    out, status = [], {}
+    for name, fn in SECTIONS:
+        if fn is None:
+            out.append("Local Open Scope Z_scope.\n")
+            continue
+        try:
+            t = fn()
+            status[name] = "translated"
+        except Exception as e:
+            status[name] = "fallback: %s" % e
+            if name not in ref:
+                raise ValueError("%s (and no reference text)" % e)
+            t = ref[name]
+        out.append(t)
+    return out, status
 
 
 OUT2 = os.path.join(os.path.dirname(os.path.abspath(__file__)), "..", "coq", "theories", "GeneratedTables.v")
@@ -224,11 +370,26 @@ def write_if_changed(path, new):
 
 
 def main():
+    import json
     try:
-        t = tables()
-    except Exception as e:   # a translation failure: the tie of the properties using these tables is broken
+        parts, status = tables()
+    except Exception as e:
         print("gen_tables: TRANSLATION FAILURE: %s" % e, file=sys.stderr)
         return 3
+    if "--write-reference" in sys.argv:
+        if any(v != "translated" for v in status.values()):
+            print("gen_tables: cannot write a reference from a tree that does not translate: %s" % status, file=sys.stderr)
+            return 3
+        names = [n for n, f in SECTIONS if f is not None]
+        texts = [t for (n, f), t in zip(SECTIONS, parts) if f is not None]
+        json.dump(dict(zip(names, texts)), open(REFERENCE, "w"), indent=1)
+        print("gen_tables: reference written")
+    os.makedirs(os.path.dirname(STATUS), exist_ok=True)
+    json.dump(status, open(STATUS, "w"), indent=1)
+    for k, v in status.items():
+        if v != "translated":
+            print("gen_tables: section %s: %s" % (k, v), file=sys.stderr)
+    t = "\n".join(parts)
     write_if_changed(OUT2, "(* GENERATED by tools/gen_tables.py from /repo/src - do not edit. *)\nFrom DTR Require Import Prelude I64 Ast.\n"
                            "From Coq Require Import String Ascii.\nOpen Scope N_scope.\n\n" + t)
     nd, where = nd_table()
